@@ -28,12 +28,12 @@ ASSUMPTIONS = ['SHA-256 from hashlib is trusted', 'long bit-string contents by r
 NOT_ASSERTED = []
 
 ROUTES = ['builder', 'ctor_tvm', 'ctor_plain', 'boc_bytes', 'boc_hex', 'boc_b64', 'copy', 'parse_to_cell', 'slice_from_cell',
-          'to_builder', 'builder_to_slice', 'builder_from_boc', 'slice_from_boc', 'boc_options', 'builder_reused', 'slice_reused']
+          'to_builder', 'builder_to_slice', 'builder_from_boc', 'slice_from_boc', 'boc_options', 'builder_reused', 'slice_reused', 'derived_mutated']
 
 
 def BOUNDS(tier):
     return {'bit_lengths': '0..1023 all', 'short_strings': 'all of length 0..10', 'ref_counts': '0..4',
-            'dag_nodes': 3 if tier == 'quick' else 4, 'chains': [1, 2, 255, 256, 1022, 1023, 1024], 'routes': ROUTES, 'exhaustive': True}
+            'dag_nodes': 3 if tier == 'quick' else '4 (any arity) and 5 (arity <= 2)', 'all_bit_strings_up_to': 10 if tier == 'quick' else 13, 'chains': [1, 2, 255, 256, 1022, 1023, 1024], 'routes': ROUTES, 'exhaustive': True}
 
 
 def selftest():
@@ -58,6 +58,11 @@ def shards(tier, seed):
         k = 1 if n < 4 else 24
         for part in range(k):
             out.append({'fn': 'shard_shapes', 'args': {'n': n, 'part': part, 'parts': k}, 'prio': 5 if n == 4 else 0})
+    if tier == 'thorough':
+        for L in (11, 12, 13):                     # every bit string up to 13 bits through every route
+            out.append({'fn': 'shard_short', 'args': {'lo': L, 'hi': L}, 'prio': 4})
+        for part in range(8):                      # every DAG with 5 cells and at most 2 references per cell
+            out.append({'fn': 'shard_shapes', 'args': {'n': 5, 'part': part, 'parts': 8, 'max_refs': 2}, 'prio': 4})
     out.append({'fn': 'shard_chains', 'args': {}, 'prio': 3})
     out.append({'fn': 'shard_equality', 'args': {}})
     return out
@@ -146,6 +151,25 @@ def _routes(rc, refs_lib):
             s.load_ref()
         return c
 
+    def derived_mutated():
+        # objects DERIVED from the cell (builder, slice, copy) are written to / consumed: the cell must not notice
+        c = base().end_cell()
+        b = c.to_builder()
+        if len(rc.bits) < 1023:
+            b.store_bit(0)
+        if len(refs_lib) < 4:
+            b.store_ref(c)
+        s = c.begin_parse()
+        s.load_bits(len(rc.bits))
+        while s.remaining_refs:
+            s.load_ref()
+        k = c.copy().to_builder()
+        if len(refs_lib) < 4:
+            k.store_ref(c)
+        b.end_cell(), k.end_cell()
+        return c
+
+    yield 'derived_mutated', derived_mutated
     yield 'builder_reused', builder_reused
     yield 'slice_reused', slice_reused
     yield 'boc_options', lambda: Cell.one_from_boc(base().end_cell().to_boc(has_idx=True, hash_crc32=True, has_cache_bits=True))
@@ -267,8 +291,8 @@ def case_shape(rec, shape, variants):
     rec.outcome(f'shape-ok:n={len(shape)}')
 
 
-def shard_shapes(rec, n, part, parts):
-    for i, shape in enumerate(dags.enum_shapes(n)):
+def shard_shapes(rec, n, part, parts, max_refs=4):
+    for i, shape in enumerate(dags.enum_shapes(n, max_refs)):
         if i % parts != part:
             continue
         for variants in (VARIANT_SETS if n <= 3 else VARIANT_SETS[:2]):
